@@ -715,6 +715,51 @@ def make_sparse_script(rng, name, kind=None):
     return f"=== {name} plan={plan} nkeys={nb}\n" + "\n".join(g.lines) + "\n"
 
 
+def make_guard_script(rng, name, table=False, kind=None):
+    """The unwind guard of the in-place rehash, deterministically: identity-like hashes, a table filled to
+    exact capacity with the LAST bucket occupied (a key whose home is buckets-1) and bucket 0 occupied,
+    more than half removed one by one inside the full run (all tombstones, growth_left stays 0), then a
+    fresh key comes in (insert / entry / reserve) while the k-th hasher call panics, k = 1 .. 4: the
+    guard must reset EVERY not yet re-hashed bucket, the first and the last included."""
+    kind = kind or (rng.choice(["table-plain", "table-drop", "table-6"]) if table else rng.choice(["map-drop", "map-plain"]))
+    n = rng.choice([28, 28, 56])
+    nb = n * 8 // 7
+    nk = nb + 40
+    lines = [f"kind {kind}"] + [f"hash {k} {plan_hash('seq', k, rng, 0)}" for k in range(nk)]
+    stamp = [0]
+    def st():
+        stamp[0] += 1
+        return stamp[0]
+    def ins(k):
+        lines.append(f"tinsertunique {k} {st()} {k % 97}" if table else f"insert {k} {st()} {k % 97}")
+    def rem(k):
+        lines.append(f"tfindentryremove {k} id {k}" if table else f"remove {k}")
+    for rnd in range(rng.choice([1, 2])):
+        lines.append("tclear" if table else "clear")
+        lines.append("tshrinktofit" if table else "shrinktofit")
+        lines.append(f"treserve {n}" if table else f"reserve {n}")
+        keys = list(range(n - 1)) + [nb - 1]
+        for k in keys:
+            ins(k)
+        gone = list(range(1, n // 2 + rng.choice([3, 5, 8])))
+        for k in gone:
+            rem(k)
+        lines.append("tcapacity" if table else "capacity")
+        fresh = nb + 1 + rnd
+        lines.append(f"arm hashpanic_nth {rng.choice([1, 1, 2, 3, 4])}")
+        if table:
+            lines.append(rng.choice([f"treserve 1", f"tentryorinsert {fresh} {st()} 7", f"ttryreserve 1"]))
+        else:
+            lines.append(rng.choice([f"insert {fresh} {st()} 7", f"entry_or_insert {fresh} {st()} 7", "reserve 1", "tryreserve 1",
+                                     f"rentry_or_insert {fresh} {st()} 7", f"raw_insert {fresh} {st()} 7", f"extend {fresh}:{st()}:7"]))
+        lines += (["tlen", "titer"] if table else ["len", "iter"])
+        for k in [0, nb - 1, n - 2, fresh] + gone[:3]:
+            lines.append(f"tfind {k} id {k}" if table else f"get {k}")
+        ins(fresh + 20)
+        lines += (["tlen", "titer"] if table else ["len", "iter"])
+    return f"=== {name} plan=seq nkeys={nk}\n" + "\n".join(lines) + "\n"
+
+
 def make_two_allocator_script(rng, name, kind=None):
     """clone_from between two maps that were constructed SEPARATELY (two allocator instances, not clones
     of one another) and hold different bucket counts, in both directions: every block must go back to
@@ -880,6 +925,11 @@ def make_removal_script(rng, name, kind=None):
         if rng.random() < 0.4 and g.contents:
             for k in rng.sample(list(g.contents), rng.randrange(1, max(2, len(g.contents) // 3))):
                 g.op_remove(k)
+        elif rng.random() < 0.25:
+            # EVERYTHING removed one by one first: the operation then runs on an empty table that still holds
+            # removed-slot markers (its reset must not be skipped because len() is 0)
+            for k in sorted(g.contents):
+                g.op_remove(k)
         live = list(g.contents)
         c = rng.choice(["retain", "retain", "extractif", "extractif", "drain"])
         armed = False
@@ -918,4 +968,18 @@ def make_removal_script(rng, name, kind=None):
         for k in rng.sample(range(n + 4), min(4, n)):
             g.emit(rng.choice(["get", "contains", "getkv"]) + f" {k}")
         g.emit("len"); g.emit("capacity"); g.emit("iter")
+    # finally: everything removed ONE BY ONE (the table is empty but keeps its removed-slot markers), then a
+    # drain dropped after 0 / all results: the reset of the control bytes must not be skipped because len() is 0
+    for k in range(n):
+        if k not in g.contents:
+            g.op_insert(k)
+    for k in sorted(g.contents):
+        g.op_remove(k)
+    g.emit(f"drain {rng.choice([0, 1000])}"); g.contents = {}
+    g.emit("len"); g.emit("capacity"); g.emit("iter")
+    for k in rng.sample(range(n + 4), min(n + 4, rng.choice([3, n // 2 + 1, n + 4]))):
+        g.op_insert(k)
+    g.emit("len"); g.emit("capacity")
+    for k in range(n + 6):
+        g.emit(f"get {k}")
     return f"=== {name} plan={plan} nkeys={n + 6}\n" + "\n".join(g.lines) + "\n"
